@@ -290,6 +290,44 @@ class Model:
                 f'class {short}:{name} not found (anchor vanished)')
         return c
 
+    def closure(self, fi, depth=3):
+        """fi plus the helpers it calls, transitively: methods of its own
+        class called through `self.` and plain functions of its module
+        (the unit a maintainer gets by extracting helpers from fi)."""
+        out, todo = [fi], [(fi, 0)]
+        while todo:
+            f, d = todo.pop()
+            if d >= depth:
+                continue
+            for c in own_nodes(f.node):
+                if not isinstance(c, ast.Call):
+                    continue
+                h = None
+                if isinstance(c.func, ast.Attribute) and \
+                        isinstance(c.func.value, ast.Name) and \
+                        c.func.value.id == 'self' and f.cls is not None:
+                    h = self.lookup_method(f.cls, c.func.attr)
+                    if h is not None and h.module is not fi.module:
+                        h = None
+                elif isinstance(c.func, ast.Name):
+                    g = fi.module.funcs.get(c.func.id)
+                    if g is not None and g.cls is None and \
+                            not self.local_defs(f, c.func.id):
+                        h = g
+                    # nested function of f
+                    for q, g2 in fi.module.funcs.items():
+                        if g2.parent is f and g2.name == c.func.id:
+                            h = g2
+                if h is not None and h not in out:
+                    out.append(h)
+                    todo.append((h, d + 1))
+        return out
+
+    def closure_nodes(self, fi, depth=3):
+        for f in self.closure(fi, depth):
+            for n in own_nodes(f.node):
+                yield n
+
     def all_funcs(self):
         for m in self.modules.values():
             yield from m.funcs.values()
